@@ -180,7 +180,7 @@ type replayBuild struct {
 // buildReplay compiles one native test binary for a package containing the given harness files.
 func buildReplay(prop, dir string, files []string, entries []string) *replayBuild {
 	rb := &replayBuild{dir: dir}
-	work := filepath.Join(verifDir, "evidence", "replay", prop, strings.ReplaceAll(dir, "/", "_"))
+	work := filepath.Join(evidenceDir, "replay", prop, strings.ReplaceAll(dir, "/", "_"))
 	os.MkdirAll(work, 0o755)
 	rb.workdir = work
 	pkgName := pkgNameOf(dir)
@@ -344,8 +344,8 @@ func cmdCheck(args []string) {
 		die("no harness registered for property %s", prop)
 	}
 	self, _ := os.Executable()
-	tmp := filepath.Join(verifDir, "evidence", "replay", prop, "runs")
-	os.RemoveAll(filepath.Join(verifDir, "evidence", "replay", prop))
+	tmp := filepath.Join(evidenceDir, "replay", prop, "runs")
+	os.RemoveAll(filepath.Join(evidenceDir, "replay", prop))
 	os.MkdirAll(tmp, 0o755)
 
 	// native replay binaries are built while the symbolic runs are going
@@ -646,9 +646,9 @@ func cmdCheck(args []string) {
 			"map iteration follows insertion order",
 		},
 	}
-	os.MkdirAll(filepath.Join(verifDir, "evidence"), 0o755)
+	os.MkdirAll(evidenceDir, 0o755)
 	b, _ := json.MarshalIndent(ev, "", " ")
-	os.WriteFile(filepath.Join(verifDir, "evidence", prop+".json"), b, 0o644)
+	os.WriteFile(filepath.Join(evidenceDir, prop+".json"), b, 0o644)
 	fmt.Printf("check %s %s: harnesses=%d incomplete=%d paths=%d queries=%d solver=%.1fs obligations=%d/%d replayed=%d violations=%d wall=%.1fs\n",
 		prop, tier, len(reports), incomplete, states, queries, solverS, discharged, obligations, validated, violations, wall)
 	if !*keep {
